@@ -136,11 +136,12 @@ class PrinterModel:
 def fragments(f: Func) -> list[str]:
     """All text fragments a print method can emit: string constants, f-string skeletons, str.format templates."""
     out = []
-    doc = ast.get_docstring(f.node)
+    # string expression statements (docstrings, also those of inlined helpers) emit nothing
+    noop = {id(n.value) for n in ast.walk(f.node) if isinstance(n, ast.Expr) and isinstance(n.value, ast.Constant)}
     for n in ast.walk(f.node):
         if isinstance(n, ast.JoinedStr):
             out.append(fstring_skeleton(n))
-        elif isinstance(n, ast.Constant) and isinstance(n.value, str) and n.value != doc:
+        elif isinstance(n, ast.Constant) and isinstance(n.value, str) and id(n) not in noop:
             out.append(n.value)
     return out
 
